@@ -5,7 +5,7 @@ package bech32
 func vData5(tag string, n int) []byte {
 	d := vNondetBytes(tag, n)
 	for i := range d {
-		vAssume(d[i] < 32)
+		d[i] &= 31 // every 5-bit symbol, without forking per symbol
 	}
 	return d
 }
@@ -43,11 +43,14 @@ func VH_bech32_roundtrip() {
 
 // C16(1): error detection: changing one or two data symbols of a valid string is always detected, and a
 // bech32 string never verifies as bech32m (or vice versa)
-//verif:opts reach=end tier=thorough
+//verif:opts reach=end affine=1
 func VH_bech32_error_detection() {
 	hrp := "bc"
-	lens := vLens()
-	n := lens[1+vNondetLen("n", len(lens)-2)]
+	lens := []int{1, 6}
+	if vTier() == 1 {
+		lens = []int{1, 2, 8, 16, 33, 53}
+	}
+	n := lens[vNondetLen("n", len(lens)-1)]
 	data := vData5("data", n)
 	ver := Version0
 	if vNondetBool("m") {
@@ -64,7 +67,7 @@ func VH_bech32_error_detection() {
 	vAssert(ok0 && v0 == ver, "the valid string verifies with its own version")
 	// substitute up to two symbols anywhere (data or checksum)
 	i := vNondetLen("i", len(full)-1)
-	j := vNondetLen("j", len(full)-1)
+	j := i + vNondetLen("j", len(full)-1-i) // positions i <= j
 	e1 := vNondetU8("e1")
 	e2 := vNondetU8("e2")
 	vAssume(e1 < 32 && e2 < 32 && (e1 != 0 || e2 != 0))
@@ -156,4 +159,32 @@ func VH_bech32_bad_char() {
 	_, _, _, err := DecodeGeneric(string(b))
 	vAssert(err != nil, "a character outside 33..126 is rejected")
 	vReach("badchar")
+}
+
+// C16(1): checksum round trip at the symbol level: verify(data || checksum(data)) reports the version used, for
+// data of 0..71 five-bit symbols (GF(2)-affine normalisation, see engine/symex/affine.py)
+//verif:opts reach=end affine=1
+func VH_bech32_checksum_roundtrip() {
+	hrp := []string{"bc", "tb", "bcrt"}[vNondetLen("hrp", 2)]
+	lens := []int{0, 1, 8, 33, 53, 71}
+	n := lens[vNondetLen("n", len(lens)-1)]
+	data := vData5("data", n)
+	ver := Version0
+	if vNondetBool("m") {
+		ver = VersionM
+	}
+	polymod := bech32Polymod(hrp, data, nil) ^ int(VersionToConsts[ver])
+	full := append([]byte{}, data...)
+	for i := 0; i < 6; i++ {
+		full = append(full, byte((polymod>>uint(5*(5-i)))&31))
+	}
+	v, ok := bech32VerifyChecksum(hrp, full)
+	vAssert(ok && v == ver, "verify(data || checksum(data)) == version used")
+	// and never under the other constant
+	other := VersionM
+	if ver == VersionM {
+		other = Version0
+	}
+	vAssert(v != other, "a bech32 string does not verify as bech32m and vice versa")
+	vReach("end")
 }
